@@ -38,7 +38,9 @@ RULE = ("case kinds: smallm (cone, α, vi, vj), delta (cone, α, value set), cov
         "the array handed over as same object / copy / float32 / Fortran order / strided view: every answer "
         "must be the model's answer for that call's own arguments). Cones: integer-row cones "
         "(harness/cones.py + scaled/flat ones) with dyadic value sets (float path exact, compared with ==) and "
-        "the bundled orders with their real float W and solver α exported exactly (1e-12 / band). "
+        "the bundled orders and rotated orthonormal cones (Pythagorean rotations of the orthant in 2-D / 3-D, square "
+        "orthonormal non-permutation W) with their real float W and solver α exported exactly (1e-12 / band); "
+        "uncov also checks get_uncovered_size == len(get_uncovered_set) == count implied by pairwise is_covered. "
         "non-trivial = verdict not fixed by the shape (a positive gap and a zero gap both present; ε-ladder "
         "with both verdicts; F1 strictly between 0 and 1 or a tie); distinct by canonical case content")
 ASSUMPTIONS = [
@@ -55,6 +57,20 @@ EXTRA_CONES = {
     "scaled2": [[1, 0], [0, 2]],
     "scaled3": [[2, 0, 0], [0, 1, 0], [0, 0, 4]],
     "skewscaled2": [[1, 0], [-1, 2]],
+}
+ROT_CONES = {  # square orthonormal, NOT permutations: rotated orthants (W Wᵀ = I up to rounding, all α_n = 1)
+    "rot2_53": [[3 / 5, 4 / 5], [-4 / 5, 3 / 5]],
+    "rot2_37": [[4 / 5, 3 / 5], [-3 / 5, 4 / 5]],
+    "rot2_67": [[5 / 13, 12 / 13], [-12 / 13, 5 / 13]],
+    "rot2_23": [[12 / 13, 5 / 13], [-5 / 13, 12 / 13]],
+    "rot2_28": [[15 / 17, 8 / 17], [-8 / 17, 15 / 17]],
+    "rot2_16": [[24 / 25, 7 / 25], [-7 / 25, 24 / 25]],
+    "rot2_44": [[21 / 29, 20 / 29], [-20 / 29, 21 / 29]],
+    "rot2_74": [[7 / 25, 24 / 25], [-24 / 25, 7 / 25]],
+    "rot3_z53": [[3 / 5, 4 / 5, 0], [-4 / 5, 3 / 5, 0], [0, 0, 1]],
+    "rot3_x23": [[1, 0, 0], [0, 12 / 13, 5 / 13], [0, -5 / 13, 12 / 13]],
+    "rot3_thirds": [[2 / 3, -1 / 3, 2 / 3], [2 / 3, 2 / 3, -1 / 3], [-1 / 3, 2 / 3, 2 / 3]],
+    "rot3_sevenths": [[2 / 7, 3 / 7, 6 / 7], [3 / 7, -6 / 7, 2 / 7], [6 / 7, 2 / 7, -3 / 7]],
 }
 FLAT_CONES = {  # empty interior: only for is_covered (α would be 0)
     "flat2": [[1, 0], [-1, 0]],
@@ -95,14 +111,15 @@ def cone_info(name):
     else:
         from vopy.utils import get_alpha_vec
 
-        rows = EXACT_CONES[name][0] if name in EXACT_CONES else EXTRA_CONES[name]
+        rows = (EXACT_CONES[name][0] if name in EXACT_CONES else
+                EXTRA_CONES[name] if name in EXTRA_CONES else ROT_CONES[name])
         W = np.array(rows, dtype=float)
-        info = (W.tolist(), [float(a) for a in np.ravel(get_alpha_vec(W))], True)
+        info = (W.tolist(), [float(a) for a in np.ravel(get_alpha_vec(W))], bool(np.all(W == np.round(W))))
     _cone_cache[name] = info
     return info
 
 
-ALPHA_CONES = sorted(EXACT_CONES) + sorted(EXTRA_CONES) + BUNDLED
+ALPHA_CONES = sorted(EXACT_CONES) + sorted(EXTRA_CONES) + BUNDLED + sorted(ROT_CONES)
 ALL_CONES = ALPHA_CONES + sorted(FLAT_CONES)
 
 
@@ -337,7 +354,7 @@ def gen(ctx):
 
     # ---- get_uncovered_set / get_uncovered_size
     for _ in range(ctx.n(60, 2500)):
-        name, W, _, exactW = pick_cone(ALL_CONES)
+        name, W, _, exactW = pick_cone(sorted(ROT_CONES) if rng.random() < 0.3 else ALL_CONES)
         n = rng.randint(2, 6)
         shape, mu = value_set(rng, W, n, rng.choice([0, 1]))
         P = [rng.randrange(n) for _ in range(rng.randint(0, 3))]
@@ -425,8 +442,8 @@ def gen(ctx):
 # cones usable on one data set of dimension m, with a rough "width" rank (larger = wider cone)
 HISTORY_CONES = {
     2: {"obtuse2": 5, "theta135": 5, "theta120": 4, "orthant2": 3, "comp2": 3, "theta90": 3, "redundant2": 3,
-        "scaled2": 3, "skew2": 2, "skewscaled2": 2, "theta60": 1, "acute2": 1, "threefacet2": 1, "theta45": 0},
-    3: {"obtuse3": 3, "obtuse3d": 3, "orthant3": 2, "comp3": 2, "right3d": 2, "scaled3": 2, "fourfacet3": 1,
+        "scaled2": 3, "rot2_53": 3, "rot2_23": 3, "rot2_67": 3, "rot2_44": 3, "skew2": 2, "skewscaled2": 2, "theta60": 1, "acute2": 1, "threefacet2": 1, "theta45": 0},
+    3: {"obtuse3": 3, "obtuse3d": 3, "orthant3": 2, "comp3": 2, "right3d": 2, "scaled3": 2, "rot3_z53": 2, "rot3_thirds": 2, "rot3_sevenths": 2, "fourfacet3": 1,
         "pyramid3": 1, "ice45_6": 1, "acute3": 0, "acute3d": 0, "ice30_4": 0},
 }
 LAYOUTS = ["same", "copy", "f32", "fortran", "view"]
@@ -750,6 +767,22 @@ def run_uncov(ctx, case):
     if str(int(r2[1])) != msize or int(r2[1]) != len(model):
         _viol(ctx, "uncovered_size-value", "get_uncovered_size differs from the number of uncovered points",
                       case, detail={"code": int(r2[1]), "model": msize})
+    # (R) the three coverage routines of the real code must tell the same story (every cone)
+    from vopy.utils import is_covered
+
+    pair = {}
+    for i in set(P):
+        for j in set(Ph):
+            rr = call(is_covered, mu[i, :].copy(), mu[j, :].copy(), eps, W.copy())
+            pair[(i, j)] = None if rr[0] == "exc" else bool(rr[1])
+    if all(v is not None for v in pair.values()):
+        implied = [i for i in P if not any(pair[(i, j)] for j in Ph)]
+        ctx.count("uncov_consistency_checked")
+        if not (int(r2[1]) == len(r[1]) == len(implied)) or [int(i) for i in r[1]] != implied:
+            _viol(ctx, "coverage-routines-disagree",
+                  "get_uncovered_size, len(get_uncovered_set) and the count implied by pairwise is_covered differ "
+                  "on the same points, ε and cone", case,
+                  detail={"size": int(r2[1]), "set": [int(i) for i in r[1]], "pairwise": implied, "model": model})
     ctx.count("uncov_some" if 0 < len(model) < len(P) else "uncov_all_or_none")
     ctx.case_done(case, 0 < len(model) < len(P) or (len(P) > 0 and len(Ph) > 0),
                   canon=[case["W"], case["mu"], P, Ph, eps])
